@@ -10,9 +10,9 @@ pub const COND_TOKS_WIDE: [&str; 26] = [
     "$a", "$ab", "$", "and", "AND", "&&", "or", "OR", "||", "not", "!", "(", ")", "all", "any", "none", "of", "them", "0", "1", "42",
     "99999999999999999999999999", "x", "-", "them$a", " ",
 ];
-pub const MATCH_TOKS: [&str; 34] = [
+pub const MATCH_TOKS: [&str; 36] = [
     ".x", ".", "x", ".\"a b\"", "\"", "==", "is", "<", "<=", "=", ">", ">=", "~=", "&=", "'a'", "\"b\"", "'1'", "'1.5'", "'['", "'", "none",
-    "some", "true", "false", "@", "@.y", "rule(", "r1", ")", "garbage", "'none'", "\"true\"", "'False'", "'SOME'",
+    "some", "true", "false", "@", "@.y", "rule(", "r1", ")", "garbage", "'none'", "\"true\"", "'False'", "'SOME'", "'a@.b'", "\"rule(x) @.y\"",
 ];
 
 fn join(toks: &[&str], mask: u32) -> String {
@@ -105,7 +105,7 @@ fn cond_case(s: String, tag: &str) -> Value {
 fn match_case(s: String, tag: &str) -> Value {
     // tables for every quoted literal that may appear: the fixed ones, and every substring of `s` that lies between
     // two quote characters (lone quote tokens can enclose anything, e.g. `' '`)
-    let mut lits: Vec<String> = ["a", "b", "1", "1.5", "[", "none", "some", "true", "false", "", "a' 'a", "1' '1", "False", "SOME", "True", "NONE"].iter().map(|x| x.to_string()).collect();
+    let mut lits: Vec<String> = ["a", "b", "1", "1.5", "[", "none", "some", "true", "false", "", "a' 'a", "1' '1", "False", "SOME", "True", "NONE", "a@.b", "rule(x) @.y"].iter().map(|x| x.to_string()).collect();
     let cs: Vec<(usize, char)> = s.char_indices().collect();
     for (a, (i, c)) in cs.iter().enumerate() {
         if *c == '\'' || *c == '"' {
@@ -205,6 +205,10 @@ pub fn gen(tier: &str, seed: u64, out: &mut dyn FnMut(Value)) {
         tuples(&MATCH_TOKS, n, &mut |t| {
             let gaps = (n - 1) as u32;
             for m in 0..(1u32 << gaps) {
+                // quick tier, 3 tokens: no spaces, all spaces, and one mixed pattern chosen by the tuple
+                if n == 3 && !thorough && m != 0 && m != 3 && m != 1 + ((t[0].len() + t[2].len()) as u32 % 2) {
+                    continue;
+                }
                 out(match_case(join(t, m), &format!("match exhaustive {n} tokens")));
             }
         });
